@@ -70,7 +70,16 @@ Two DIFFERENT changes (call them {pid}-{k1} and {pid}-{k2}) to the library's non
    configuration re-read through DeviceList after the caller changed its own data, controllers listed twice, writes through
    decoded pointer fields, process time zones without abbreviation or with odd ones, controller names in non-Latin scripts,
    dates that wrap a time of day in another location, replies that are byte-identical to their request, equal bind and
-   destination ports, message layouts embedding structs of unexported types:
+   destination ports, message layouts embedding structs of unexported types, inputs placed flush against unmapped memory
+   pages, results held across garbage collections, struct copies of decoded values kept while the variable is reused, card
+   numbers echoed in related notations (Wiegand decimal / raw 24 bit), century leap days, arguments built from parts of the
+   client configuration, undefined enum values in argument lists, dates before the common era, 8- and 20-octet MAC
+   addresses, struct tags written in other orders, same-named local types of different sizes, any subset of message fields
+   blanked combined with noise in unused bytes, the network watched for unsolicited traffic during long idle periods,
+   consumers that block for longer than any constant in the source, TCP peers that never close, firmware versions learnt
+   from earlier replies, consecutive events whose clocks are a calendar step apart, rival processes binding the same port
+   with SO_REUSEADDR, reply bursts as large as the socket receive queue with stalled debug output, ICMP errors for
+   requests that expect no reply, bind addresses without an IP:
    look for what such testing still would NOT reach.
 
 Changes of earlier rounds - do NOT repeat these or close variants of them; find a different mechanism, a different
